@@ -546,7 +546,7 @@ type engine struct{ prop string }
 
 func (e *engine) Rule() string {
 	if e.prop == "C29" {
-		return "C29: command sequences (8–40 commands) over 3 keys plus the empty key on one connection to the real server; values: integers at the int64 limits, blank/odd numerals, arbitrary bytes; SET with NX/XX and EX/PX/EXAT/PXAT far in the past or future; non-trivial = a key is accessed again after it was given an expiry or written conditionally, or an INCR-family command answers an integer/overflow error"
+		return "C29: command sequences (8–40 commands) over 3 keys plus the empty key on one connection to the real server; values: integers at the int64 limits, blank/odd numerals, arbitrary bytes; ~18% of the steps are INCRBY/DECRBY pairs with stored value and delta both from {MinInt64, MinInt64+1, -1, 0, 1, MaxInt64-1, MaxInt64}; SET with NX/XX and EX/PX/EXAT/PXAT far in the past or future; non-trivial = a key is accessed again after it was given an expiry or written conditionally, or an INCR-family command answers an integer/overflow error"
 	}
 	return "C31: byte streams for parseRESP: well-formed arrays and inline commands, truncated/mutated frames, declared array and bulk lengths from -2^63 to 10^30 (small, 32 MiB–512 MiB, ≥ 32 GiB, > maxAlloc), random protocol bytes; every other case also sends zero-argument frames (`*0`, `*-1`, blank and white-space-only lines) plus PING to the real server over TCP (must answer +PONG); non-trivial = the stream is not a plain well-formed one (the parse ends with an error other than a clean EOF, or is unsafe)"
 }
